@@ -798,7 +798,7 @@ func (m *Machine) callSSA(caller *frame, callpos token.Pos, fn *ssa.Function, ar
 	if m.funcsSeen != nil {
 		m.funcsSeen[fn] = true
 	}
-	if fn.Name() == "init" && fn.Pkg != nil && !inModule(fn.Pkg) && fn.Parent() == nil {
+	if fn.Name() == "init" && fn.Pkg != nil && !inModule(fn.Pkg) && fn.Parent() == nil && !initAllowed[fn.Pkg.Pkg.Path()] {
 		m.curFrame = caller
 		return nil
 	}
@@ -1525,3 +1525,7 @@ func (m *Machine) symbolicMakeLen(si symInt) value {
 	m.assume(symBool{small})
 	return intOfKind(si.kind, uint64(m.concretize(si, "make length")))
 }
+
+// initAllowed lists the packages outside the module whose initialisers are
+// run (plain variable initialisation the code under test depends on).
+var initAllowed = map[string]bool{"image/color": true, "image": true}
